@@ -247,6 +247,13 @@ class CodecSide:
                 elif l.startswith("< known "):
                     _, _, h, n, v = l.split()
                     known[(int(h), int(n))] = v == "1"
+                elif l.startswith("# libverdict "):
+                    x = l.split()
+                    fails.append(("codec-parse-verdict", "step %d `%s`: the codec says a payload of %s bytes %s, protobuf's "
+                                  "ParseFromArray on the whole payload says it %s: a payload that does not parse must be reported "
+                                  "as a parse error and never delivered (and one that parses must be delivered)"
+                                  % (i, op[:60], x[6], "parses" if x[2] == "1" else "does not parse",
+                                     "parses" if x[4] == "1" else "does not parse")))
             if w[0] == "new":
                 cfg = CodecCfg.of_line(op)
                 verdicts, known, groups, encoded, cur = {}, {}, [], [], None
@@ -537,7 +544,9 @@ class CodecSide:
             elif r < 0.85:
                 p = bytearray(b"")
             else:
-                p += bytes([rng.randrange(256)])
+                # something after a complete message: a zero tag / a stray END_GROUP tag (where a stream parser that is not
+                # asked to consume everything stops "cleanly"), any byte, then more bytes; the checksum is right
+                p += bytes([rng.choice([0, 0, 0x0c, 0x04, rng.randrange(256)])]) + gen_bytes(rng.randrange(1 << 30), rng.choice([0, 0, 1, 5, 30]))
             parts[j] = rebuild(tag, bytes(p))
         elif cls == "length-field":
             kind = rng.choice(self.LEN_ATTACKS)
